@@ -62,4 +62,6 @@ PROPS = {
             "parts": [rp("procs", "TestC18", (40, 2), (1500, 8), helpers=["cmd/vhelper"])]},
     "C19": {"level": "exploration", "assumptions": ["the harness wires the task runner as app.appAction does; real processes via cmd/vhelper", "task names are single path components (no '/' or NUL)"],
             "parts": [rp("procs", "TestC19", (40, 2), (400, 8), helpers=["cmd/vhelper"])]},
+    "C20": {"level": "exploration", "assumptions": ["/proc is the process table; processes are identified by a per-run marker in argv", "processes that leave their process group (setsid) are outside the statement", "two recorded findings (known_findings.txt) are excluded from the generated trees by construction and exercised separately"],
+            "parts": [rp("procs", "TestC20", (20, 3), (600, 8), helpers=["cmd/vhelper"])]},
 }
